@@ -303,7 +303,9 @@ class Sim(object):
 
 
 def make_machine(ctx, tmpdir):
-    pairs = lambda ks: st.lists(st.tuples(ks, values), max_size=4, unique_by=lambda t: t[0]).map(lambda l: [list(t) for t in l])
+    pairs = lambda ks, vs=values: st.lists(st.tuples(ks, vs), max_size=4, unique_by=lambda t: t[0]).map(lambda l: [list(t) for t in l])
+    # attributes of the OTHER object may hold None (fields of a freshly constructed object that update_other is meant to fill)
+    attr_values = st.one_of(values, values, values, st.none())
 
     class Machine(RuleBasedStateMachine):
         def __init__(self):
@@ -370,11 +372,11 @@ def make_machine(ctx, tmpdir):
             vals = data.draw(st.lists(values, min_size=k, max_size=k))
             self.step({"op": "set_variable_values", "vals": vals})
 
-        @rule(attrs=pairs(st.one_of(ident, st.sampled_from(["a", "b", "a_b", "x1"]))))
+        @rule(attrs=pairs(st.one_of(ident, st.sampled_from(["a", "b", "a_b", "x1"])), attr_values))
         def update_yourself(self, attrs):
             self.step({"op": "update_yourself", "attrs": attrs})
 
-        @rule(attrs=pairs(st.one_of(ident, st.sampled_from(["a", "b", "a_b", "x1"]))), twin=st.booleans())
+        @rule(attrs=pairs(st.one_of(ident, st.sampled_from(["a", "b", "a_b", "x1"])), attr_values), twin=st.booleans())
         def update_other(self, attrs, twin):
             if twin:
                 # the receiver already holds values that compare EQUAL to the parameters but are not the same
